@@ -1414,7 +1414,7 @@ func (c *compiler) compileArray(e *Array) error {
 	setfork()
 	c.append(&code{op: oppop})
 	c.append(&code{op: opload, v: arr})
-	if e.Query.Op == OpPipe {
+	if e.Query.hasPipe() {
 		return nil
 	}
 	// optimize constant arrays
